@@ -45,7 +45,7 @@ theorem table_size : 300 ≤ table.length := by decide +kernel
     * every object allocated before the call has exactly the content it had, and
     * every store performed so far went to an object allocated during the call. -/
 theorem methods_never_write_preexisting_objects (e : Entry) (he : e ∈ table) (hc : covered e = true)
-    (σ σ' : State) (hlog : σ.log = []) (hr : Reach e.prog σ σ') :
+    (σ σ' : State) (hlog : σ.log = []) (hr : Reach .skip e.prog σ σ') :
     (∀ a o, σ.heap a = some o → σ'.heap a = some o) ∧ (∀ a ∈ σ'.log, σ.heap a = none) := by
   have hall := table_wellFormed
   unfold allWellFormed at hall
@@ -55,7 +55,7 @@ theorem methods_never_write_preexisting_objects (e : Entry) (he : e ∈ table) (
 
 /-- in particular for completed calls -/
 theorem methods_leave_arguments_unchanged (e : Entry) (he : e ∈ table) (hc : covered e = true)
-    (σ σ' : State) (hlog : σ.log = []) (hex : Exec e.prog σ σ') :
+    (σ σ' : State) (hlog : σ.log = []) (hex : Exec .skip e.prog σ σ') :
     ∀ a o, σ.heap a = some o → σ'.heap a = some o :=
   (methods_never_write_preexisting_objects e he hc σ σ' hlog (Reach.done _ _ _ hex)).1
 
@@ -64,7 +64,7 @@ theorem methods_leave_arguments_unchanged (e : Entry) (he : e ∈ table) (hc : c
     without touching the caller's objects -/
 theorem fresh_results_share_nothing (e : Entry) (_he : e ∈ table) (_hc : covered e = true) (x : Var)
     (_hx : e.result = some x) (ht : (resultTag e.taint e.nvars e.prog x).map Tag.deep = some true)
-    (σ σ' : State) (hlog : σ.log = []) (hex : Exec e.prog σ σ') :
+    (σ σ' : State) (hlog : σ.log = []) (hex : Exec .skip e.prog σ σ') :
     ∃ D : Addr → Prop, (∀ a, D a → σ.heap a = none) ∧ (∀ a, σ'.env x = .ref a → D a) ∧
       (∀ a o f b, D a → σ'.heap a = some o → tainted e.taint f = false → o f = .ref b → D b) :=
   wellFormed_result_fresh e.taint e.nvars e.prog x ht σ σ' hlog hex
@@ -80,7 +80,7 @@ not any other engine's store. -/
     engines' stores and components, module-level data …), the call leaves every one of them exactly as it was,
     at every point of the call -/
 theorem reducer_calls_leave_shared_objects_unchanged (e : Entry) (he : e ∈ table) (hc : covered e = true)
-    (σ σ' : State) (hlog : σ.log = []) (hr : Reach e.prog σ σ')
+    (σ σ' : State) (hlog : σ.log = []) (hr : Reach .skip e.prog σ σ')
     (shared : Addr → Prop) (hshared : ∀ a, shared a → σ.heap a ≠ none) :
     ∀ a, shared a → σ'.heap a = σ.heap a := by
   intro a ha
@@ -92,8 +92,8 @@ theorem reducer_calls_leave_shared_objects_unchanged (e : Entry) (he : e ∈ tab
     starts from a heap in which everything the first call was given is unchanged -/
 theorem consecutive_calls_do_not_interfere (e₁ e₂ : Entry) (h₁ : e₁ ∈ table) (h₂ : e₂ ∈ table)
     (c₁ : covered e₁ = true) (c₂ : covered e₂ = true)
-    (σ σ₁ σ₂ : State) (hlog : σ.log = []) (r₁ : Reach e₁.prog σ σ₁)
-    (r₂ : Reach e₂.prog { σ₁ with log := [] } σ₂) :
+    (σ σ₁ σ₂ : State) (hlog : σ.log = []) (r₁ : Reach .skip e₁.prog σ σ₁)
+    (r₂ : Reach .skip e₂.prog { σ₁ with log := [] } σ₂) :
     ∀ a o, σ.heap a = some o → σ₂.heap a = some o := by
   intro a o h
   have s₁ := (methods_never_write_preexisting_objects e₁ h₁ c₁ σ σ₁ hlog r₁).1 a o h
@@ -122,11 +122,19 @@ example : wellFormed [9] 4 (.seq (.copy 3 1) (.seq (.store 3 9 0) (.seq (.load 2
 example : wellFormed [] 3 (.seq (.havoc 2) (.store 0 4 2)) = false := by decide
 
 /-- executions exist (so `Reach`/`Exec` hypotheses are satisfiable): allocate an object, then store into it -/
-example : ∃ σ', Exec (.seq (.new 3) (.seq (.havoc 0) (.store 3 7 0)))
+example : ∃ σ', Exec .skip (.seq (.new 3) (.seq (.havoc 0) (.store 3 7 0)))
     ⟨fun x => if x = 1 then .ref 10 else .prim,
      fun a => if a = 10 then some (fun _ => .prim) else none, []⟩ σ' :=
   ⟨_, Exec.seq _ _ _ _ _ (Exec.new 3 _ 20 (by simp))
         (Exec.seq _ _ _ _ _ (Exec.havoc _ _) (Exec.store _ _ _ _))⟩
+
+/-- a recursive procedure (`body` = allocate, maybe recurse, store into the own object) with an entry that
+    calls it: accepted; and a recursive procedure that writes what it was given: rejected -/
+example : wellFormedWith [] 4 (.seq (.new 1) (.seq (.choice .skip (.call 2)) (.store 1 0 2))) (.call 3) = false := by
+  decide
+example : wellFormedWith [] 4 (.seq (.newShallow 1) (.seq (.choice .skip (.call 2)) (.store 1 0 2))) (.call 3) = true := by
+  decide
+example : wellFormedWith [] 4 (.seq (.choice .skip (.call 2)) (.store 0 0 2)) (.call 3) = false := by decide
 
 /-- the deep-copy specification is satisfiable: the copy of a primitive is that primitive -/
 example (h : Heap) : IsDeepCopy h h .prim :=
